@@ -110,6 +110,23 @@ def tar_cases(tier):
             b"27 mtime=-9223372036854775809\n", b"20 GNU.sparse.map=\n", b"23 GNU.sparse.map=1,\n", b"25 GNU.sparse.map=1,2,3\n", b"45 GNU.sparse.map=18446744073709551615,5,1,1\n",
             b"28 GNU.sparse.numbytes=5\n", b"26 GNU.sparse.offset=-1\n", b"30 LIBARCHIVE.xattr.user.a=!!!!\n", b"29 LIBARCHIVE.xattr.user.%=QQ==\n", b"22 SCHILY.xattr.=v\n",
             b"24 SCHILY.xattr.user=v\n", b"33 GNU.sparse.realsize=4294967297\n21 GNU.sparse.major=1\n21 GNU.sparse.minor=0\n"]
+    ftail = tarmk.header(b"f", size=3, typeflag=b"0") + tarmk.pad(b"abc") + tarmk.header(b"z", size=1, typeflag=b"0") + tarmk.pad(b"z") + bytes(1024)
+    # the same value alphabets with a CORRECT length prefix, so that the value parser (not the length check) sees them
+    VALS = {b"GNU.sparse.map": [b"", b"0", b"0,", b"0,x", b"x", b",", b"0,,", b"0,512", b"0,512,", b"0,512,4096", b"0,512,4096,", b"0,512,4096,-1", b"0,512,,512",
+                                b"0,512,4096,99999999999999999999999", b"18446744073709551615,5,1,1", b"0,0", b"5,0,0,5", b"-1,5"],
+            b"GNU.sparse.numbytes": [b"", b"x", b"-1", b"18446744073709551616", b"5x"], b"GNU.sparse.offset": [b"", b"x", b"-1", b"18446744073709551616"],
+            b"GNU.sparse.size": [b"", b"x", b"-1", b"18446744073709551615"], b"GNU.sparse.realsize": [b"", b"x", b"-1", b"18446744073709551615"],
+            b"size": [b"", b"x", b"-1", b"18446744073709551615", b"9223372036854775808"], b"uid": [b"", b"abc", b"-1", b"4294967296", b"18446744073709551616"],
+            b"gid": [b"", b"abc", b"-1", b"4294967296"], b"mtime": [b"", b"x", b"-", b"1.", b".5", b"-9223372036854775809", b"9223372036854775808", b"1e9", b"1.5.5"],
+            b"path": [b"", b"/", b"..", b"a/../b", b"a\x00b", b"x" * 5000], b"linkpath": [b"", b"x" * 5000],
+            b"SCHILY.xattr.user.a": [b"", b"\x00", b"v" * 70000], b"LIBARCHIVE.xattr.user.a": [b"", b"!!!!", b"QQ", b"QQ=", b"QQ==", b"=QQ="],
+            b"LIBARCHIVE.xattr.user.%": [b"QQ=="], b"LIBARCHIVE.xattr.user.%4": [b"QQ=="], b"LIBARCHIVE.xattr.user.%zz": [b"QQ=="], b"SCHILY.xattr.": [b"v"], b"SCHILY.xattr.user": [b"v"]}
+    for key, vals in VALS.items():
+        for v in vals:
+            for pre in ([], [(b"GNU.sparse.major", b"0"), (b"GNU.sparse.minor", b"1"), (b"GNU.sparse.size", b"4096")]):
+                if pre and not key.startswith(b"GNU.sparse"):
+                    continue
+                cases.append(("tar", "pax %s=%r%s" % (key.decode(), v[:30], " (after sparse 0.1 keys)" if pre else ""), tarmk.pax_header(pre + [(key, v)]) + ftail))
     for rec in recs:
         hdr = tarmk.header(b"pax/h", size=len(rec), typeflag=b"x")
         cases.append(("tar", "pax record %r" % rec[:40], hdr + tarmk.pad(rec) + tail))
@@ -123,7 +140,6 @@ def tar_cases(tier):
             (b"GNU.sparse.size", b"100"), (b"GNU.sparse.numblocks", b"1"), (b"GNU.sparse.offset", b"0"), (b"GNU.sparse.numbytes", b"3"),
             (b"GNU.sparse.map", b"0,3"), (b"GNU.sparse.name", b"sp"), (b"GNU.sparse.major", b"1"), (b"GNU.sparse.minor", b"0"), (b"GNU.sparse.realsize", b"100"),
             (b"SCHILY.xattr.user.a", b"v"), (b"LIBARCHIVE.xattr.user.b", b"dg=="), (b"comment", b"c")]
-    ftail = tarmk.header(b"f", size=3, typeflag=b"0") + tarmk.pad(b"abc") + tarmk.header(b"z", size=1, typeflag=b"0") + tarmk.pad(b"z") + bytes(1024)
     for n in range(1, (3 if quick else 4) + 1):
         for seq in itertools.product(range(len(KEYS)), repeat=n):
             cases.append(("tar", "pax keys " + ",".join(KEYS[i][0].decode() for i in seq), tarmk.pax_header([KEYS[i] for i in seq]) + ftail))
